@@ -518,6 +518,48 @@ class DigestStream(Stream):
             acc["errors"] = acc.get("errors", 0) + 1
 
 
+class NumpyScalarDigest(Stream):
+    """equal expressions whose constants are numpy scalars / Python scalars get the same persistent
+    key (oracle only: numpy scalars have no wire form)"""
+    name = "digest-numpy-scalars"
+    has_model = False
+
+    def cases(self, rng, tier):
+        for kind in ("int64", "int32", "float64", "float32", "bool_", "complex128"):
+            for shape in ("sum", "call", "power", "nested"):
+                yield {"kind": kind, "shape": shape}
+
+    def run_impl(self, pl):
+        return "(oracle-only)"
+
+    def _pair(self, pl):
+        import numpy as np
+        import pymbolic.primitives as p
+        py = {"int64": 3, "int32": -7, "float64": 2.5, "float32": 0.5, "bool_": True,
+              "complex128": 1 + 2j}[pl["kind"]]
+        npv = getattr(np, pl["kind"])(py)
+        x = p.Variable("x")
+
+        def build(c):
+            return {"sum": p.Sum((x, c)), "call": p.Call(p.Variable("f"), (c, x)),
+                    "power": p.Power(x, c),
+                    "nested": p.Product((p.Sum((x, c)), p.Quotient(c, x)))}[pl["shape"]]
+        return build(py), build(npv)
+
+    def oracle(self, pl):
+        a, b = self._pair(pl)
+        if not (a == b):
+            return None
+        ha, hb = K.digest_hex(a), K.digest_hex(b)
+        if ha != hb:
+            return Failure("digest-numpy-scalar-differs",
+                           f"{a!r} == {b!r} (numpy {pl['kind']}) but keys {ha[:12]} / {hb[:12]}", pl)
+        return None
+
+    def nontrivial_key(self, pl, model, impl):
+        return pl["kind"] + pl["shape"]
+
+
 class CompiledStream(Stream):
     """pymbolic.compile(expr, variables) pickled in a producer, loaded in a consumer: same source
     expression and variables (model), same argument order and same results on argument tuples as
@@ -616,7 +658,7 @@ PROP = Prop(
     id="C17",
     title="Pickles and persistent keys are stable across processes",
     lean_targets=["PV.Properties.C17"],
-    streams=[HistStream(), DigestStream(), CompiledStream(), OfExprStream()],
+    streams=[HistStream(), DigestStream(), NumpyScalarDigest(), CompiledStream(), OfExprStream()],
     probes=[probe_known],
     trusted_base=[
         "Lean 4.33 kernel; axioms propext, Classical.choice, Quot.sound only",
